@@ -23,7 +23,7 @@
 (* order), which is what makes loading independent of definition order     *)
 (* and of how definitions are split over files (property C17).             *)
 (***************************************************************************)
-EXTENDS Integers, Sequences, FiniteSets, SequencesExt
+EXTENDS Integers, Sequences, FiniteSets, SequencesExt, TypeAlgebra
 
 CONSTANT Devs
 
@@ -31,9 +31,8 @@ Flatten(ss) == FoldLeft(LAMBDA a, x : a \o x, <<>>, ss)
 
 Dunder(name) == Len(name) >= 2 /\ SubSeq(name, 1, 2) = "__"
 
-RECURSIVE TypeName(_), TypeStr(_)
-TypeName(t) == IF t.k = "named" THEN t.name ELSE TypeName(t.of[1])
-TypeStr(t) == (IF t.k = "named" THEN t.name ELSE "[" \o TypeStr(t.of[1]) \o "]") \o (IF t.nn THEN "!" ELSE "")
+\* type references: module TypeAlgebra (TypeStr, BaseName)
+TypeName(t) == BaseName(t)
 
 OutputKinds == {"SCALAR", "OBJECT", "INTERFACE", "UNION", "ENUM"}
 InputKinds  == {"SCALAR", "ENUM", "INPUT_OBJECT"}
